@@ -324,6 +324,22 @@ def alternatives(t: Term, limit: int = 8) -> list[tuple[Formula, Term]]:
                 if h != FALSE:
                     out.append((h, v2))
         return out if len(out) <= limit else [(g, v) for g, v in t[1]]
+    if t[0] == "mcall" and t[2] == "join" and len(t[3]) == 1 and unbox(t[3][0])[0] == "yields":
+        # joining what a generator yields: every yield contributes its value when its condition holds
+        ys = unbox(t[3][0])[1]
+        names = sorted({a for g, _v in ys for a in atoms_of(g)})
+        if len(names) <= 3:
+            import itertools
+
+            from .c04_symx import evaluate
+
+            out2: list[tuple[Formula, Term]] = []
+            for vals in itertools.product([True, False], repeat=len(names)):
+                env = dict(zip(names, vals))
+                pieces = tuple(v for g, v in ys if evaluate(g, env))
+                guard = f_and([("atom", n) if b else f_not(("atom", n)) for n, b in env.items()])
+                out2.append((guard, ("mcall", t[1], "join", (("tuple", pieces),), ())))
+            return out2
     if t[0] == "fstr" or (t[0] == "binop" and t[1] == "+"):
         parts = list(t[1]) if t[0] == "fstr" else [t[2], t[3]]
         combos: list[tuple[Formula, list[Term]]] = [(TRUE, [])]
